@@ -54,6 +54,26 @@ def make_history(h, desc, vals, fns, rng, length):
                 steps.append((fn, kinds, a2))
                 if rng.random() < 0.4:
                     steps.append((fn, kinds, list(args)))
+        names = [n for tp, n in zip(desc[fn]["args"], desc[fn]["argnames"]) if tp != "xrl_error**"]
+        small = [i for i, n in enumerate(names) if (n or "").endswith(("_flag",))]
+        if small and rng.random() < 0.7:
+            # switch sweep: every value of every small-domain switch argument in turn, each between two calls with all switches fully on
+            # (what one call leaves behind for the next - scratch arrays, memoised terms - must not show in a call that switches a term off)
+            base = list(args)
+            for i in small:
+                base[i] = 2
+            good = [a for k, a in sw if k == kinds and isinstance(a[0], str) and a[0] != "cNULL" and isinstance(a[1], float) and 0.5 < a[1] < 200]
+            if good:
+                g = rng.choice(good)
+                for i in range(len(base)):
+                    if i not in small:
+                        base[i] = g[i]
+            for i in small:
+                for v in (0, 1, 2, -1, 3):
+                    a2 = list(base)
+                    a2[i] = v
+                    steps.append((fn, kinds, list(base)))
+                    steps.append((fn, kinds, a2))
     # repeated queries at distance: re-issue a few earlier steps later in the history
     for _ in range(max(2, length // 8)):
         k = rng.randrange(0, max(1, len(steps) // 2))
@@ -117,6 +137,56 @@ def work(item):
     return st
 
 
+def work_orders(item):
+    """the argument sweep of a group of functions (every value of every discrete class, structured continuous values) executed as ONE history in
+    generation order and again in a shuffled order: every call must answer bit-identically in both, and the library's data must hash the same
+    before and after.  Reaches (function, special value) pairs - one line macro out of 400, one shell - that random histories rarely draw."""
+    exe, src, rangesf, seed, budget, fns, sdir, tag = item
+    st = Stats()
+    h, desc = apigen.descriptors(src)
+    desc = dict(desc)
+    desc["add_compound_data"] = dict(ret="struct compoundData*", args=["const char*", "double", "const char*", "double"], argnames=["compound", "weightA", "compound", "weightB"])
+    vals = apisweep.Values(h, src, mix(seed, "c16o", tag))
+    vals.nist_names, vals.nuc_names, vals.crystal_names = c03.catalogue_names(exe, sdir, tag)
+    rng = random.Random(mix(seed, "c16order", tag))
+    plan = []
+    for fn in fns:
+        for kinds, args in apisweep.sweep(h, desc, vals, fn, budget, True):
+            plan.append((fn, kinds, args))
+    lines = [calls.line(fn, kinds, args) for fn, kinds, args in plan]
+    perm = list(range(len(lines)))
+    rng.shuffle(perm)
+    out1, rc1, err1 = calls.run(exe, "history", lines, sdir, tag + "_o1", extra_args=[rangesf])
+    out2, rc2, err2 = calls.run(exe, "history", [lines[i] for i in perm], sdir, tag + "_o2", extra_args=[rangesf])
+    if rc1 != 0 or rc2 != 0 or len(out1) != len(lines) + 1 or len(out2) != len(lines) + 1 or not out1[-1].startswith("STATE") or not out2[-1].startswith("STATE"):
+        st.violation("history-crash", dict(functions=fns[:6], mode="orders"), "both orders execute", (err1 or err2)[-1500:])
+        return st
+    for k, i in enumerate(perm):
+        st.ev()
+        if out1[i] != out2[k]:
+            st.violation("order-dependence:" + plan[i][0], dict(call=lines[i].replace("\t", " ")[:160], position_in_order=i, position_shuffled=k,
+                                                               previous_in_order=lines[i - 1].replace("\t", " ")[:120] if i else None,
+                                                               previous_shuffled=lines[perm[k - 1]].replace("\t", " ")[:120] if k else None),
+                         out1[i][:200], out2[k][:200])
+            break
+    for which, o in (("generation order", out1), ("shuffled order", out2)):
+        state = o[-1].split("\t")
+        if state[1] != state[2]:
+            st.violation("tables-modified", dict(functions=fns, mode=which), state[1], state[2])
+        if state[3] != "1":
+            st.violation("locale-changed", dict(functions=fns, mode=which), "locale unchanged", None)
+        if state[5] != "1":
+            st.violation("error-object-modified", dict(functions=fns, mode=which), "error objects untouched by later calls", None)
+        if state[7] != "-":
+            st.violation("stdout-output", dict(functions=fns, mode=which), "nothing on stdout", bytes.fromhex(state[7])[:200])
+        if state[6] != "-" and not DEPRECATION.match(bytes.fromhex(state[6])) and b"set over the top" not in bytes.fromhex(state[6]):
+            st.violation("stderr-output", dict(functions=fns, mode=which), "only deprecation diagnostics on stderr", bytes.fromhex(state[6])[:300])
+    st.nt_key("orders", tuple(fns))
+    st.cls("order_pairs", len(lines))
+    st.sample("orders", dict(functions=fns[:5], calls=len(lines)), cap=2)
+    return st
+
+
 def run(ctx):
     quick = ctx.quick
     nhist, length = (25, 80) if quick else (400, 80)
@@ -137,11 +207,16 @@ def run(ctx):
     ctx.extra["hashed_bytes"] = sum(s for a, s, w in ranges)
     items = [(exe, b["src"], rangesf, ctx.seed, nhist, length, ctx.sdir, "w%d" % k) for k in range(16)]
     ctx.stats.merge(common.pmap(work, items))
+    fns = sorted(apigen.descriptors(b["src"])[1]) + ["add_compound_data"]
+    parts = 16
+    items2 = [(exe, b["src"], rangesf, ctx.seed, 1200 if quick else 12000, fns[k::parts], ctx.sdir, "o%d" % k) for k in range(parts)]
+    ctx.stats.merge(common.pmap(work_orders, items2))
     ctx.rule = ("seeded histories (16 workers x %d histories, 10..%d steps + re-issued earlier steps) drawn from the C03 argument classes over every exported "
                 "function incl. failing calls, XRayInit, parser, NIST / nuclide / crystal lookups, _CP and refractive functions and the deprecated stubs, on "
                 "the Kissel-regenerated configuration under locale C.utf8; oracle: each step's encoded result == result of the same call in a fresh "
                 "forked process; FNV-1a over %d library data/bss/rodata ranges (%d bytes) equal before/after; locale, cwd, stdout/stderr, kept error "
-                "objects unchanged. non-trivial = history with >= 1 failing and >= 1 allocating call, distinct by history" % (nhist, length, len(ranges), ctx.extra["hashed_bytes"]))
+                "objects unchanged; plus the C03 argument sweep of every function as one history in generation order and in shuffled order "
+                "(bit-identical answers, same hashes). non-trivial = history with >= 1 failing and >= 1 allocating call, distinct by history" % (nhist, length, len(ranges), ctx.extra["hashed_bytes"]))
     ctx.assumptions = ["insertions into the built-in crystal collection are excluded from histories (the property exempts them)",
                        "the fresh-process reference is a child forked before the parent ever called the library"]
 
